@@ -107,8 +107,10 @@ def oracle_c12(tr: Trace):
             if st.ob["exc"] == 0 and st.ob["ret"] and tr.kind == "dest":
                 _check_dest_cancel(tr, k, st, pf, remote)
         eof_cancel = tr.kind == "dest" and st.tag == 0 and st.pdu["kind"] == codec.K_EOF and st.pdu["cond"] != 0 and st.ob["exc"] == 0
+        # in every step before the completion: waiting for Metadata, receiving, check-limit handling after an EOF (no
+        # error), waiting for missing data after an EOF (no error) [F33]
         busy_receiving = eof_cancel and st.prev is not None and st.prev["fields"]["state"] == 1 and st.prev["fields"]["qlen"] == 0 \
-            and step_after_advancement(st.prev) in (2, 3) and st.prev["fields"]["file_size_eof"] < 0
+            and step_after_advancement(st.prev) in (2, 3, 4, 6) and st.prev["fields"]["disposition"] != 1
         # ... or as the very first PDU of its transaction (Metadata and data lost; acknowledged mode only, an unacknowledged
         # receiver refuses a first PDU that is not Metadata)
         first_pdu = eof_cancel and (st.prev is None or st.prev["fields"]["state"] == 0) and st.pdu["mode"] == 0 \
